@@ -266,6 +266,7 @@ class Function:
         self.entry = f.get('entry')
         self.exit = f.get('exit')
         self.params = [p['id'] for p in f.get('params', [])]
+        self.param_types = {p['id']: p.get('t', '') for p in f.get('params', [])}
         self.line = f.get('loc', [0, 0])[0]
         self._tops = None
         self._used = None
